@@ -407,11 +407,16 @@ def run_indicator_task(source, contracts, loops, spec, variant, natives=None, ti
 
             ctx.extract = indicator_extractor(spec, variant, env, mode)
             bounds = [top]
+            missing_helper = False
             # helper graph: specs of the sub / managed indicators, bound to the real instances
             for path, info in spec.subs.items():
                 inst = SpecEval(ex, st, env).ev(path)
                 if not isinstance(inst, Ref):
-                    raise Unsupported(f"sub-indicator path {path} does not evaluate to an object")
+                    # the class contract names its helpers (own name + "_..."): a helper that is not registered under that
+                    # name breaks the namespace premise of C13 - an obligation, not a limit of the engine
+                    ctx.oblige(st, "namespace", f"helper-registered-under-its-own-prefixed-name:{path}", False, None, props=["C13", "C14"])
+                    missing_helper = True
+                    break
                 sspec = SPEC_REGISTRY.get(st.heap[inst.oid].cls.qualname)
                 if sspec is None:
                     raise Unsupported(f"no spec for helper class {st.heap[inst.oid].cls.qualname}")
@@ -423,6 +428,8 @@ def run_indicator_task(source, contracts, loops, spec, variant, natives=None, ti
                     pinst = SpecEval(ex, st, env).ev(parent)
                     ctx.bindings[pinst.oid].children.append(sb)
                 bounds.append(sb)
+            if missing_helper:
+                continue
             N = env["N"]
             # hypotheses are statements about the PRE-state: evaluate them against a frozen snapshot,
             # never against the state object that the execution goes on mutating
